@@ -161,7 +161,7 @@ func (obj *SparseFloat64Vector) APPEND(w *SparseFloat64Vector) *SparseFloat64Vec
   return r
 }
 func (obj *SparseFloat64Vector) ToSparseFloat64Matrix(n, m int) *SparseFloat64Matrix {
-  if n*m != obj.n {
+  if n < 0 || m < 0 || n*m != obj.n {
     panic("Matrix dimension does not fit input vector!")
   }
   v := NullSparseFloat64Vector(obj.n)
